@@ -85,6 +85,8 @@ def run(ctx):
     from nitypes.waveform import (NO_SCALING, AnalogWaveform, DigitalWaveform, ExtendedPropertyDictionary,
                                   LinearScaleMode, SampleIntervalMode, Timing)
     from nitypes.xy_data import XYData
+    import warnings
+    warnings.simplefilter("ignore")
     rng = ctx.rng
     # ---- bintime scalars and arrays --------------------------------------------------------------------
     ticks = [t for t in edge_ticks() if I128_MIN <= t <= I128_MAX][:: (6 if ctx.quick else 1)]
@@ -196,6 +198,31 @@ def run(ctx):
             if rng.random() < 0.6:
                 # names as a user may type them: padded, or containing the separator
                 o.signals[rng.randrange(o.signal_count)].name = rng.choice(["n0", " clk ", "d0,d1", "x ", "\tq", "a, b"])
+            # ... and then the names change underneath the cache, by every route there is: a merge of another waveform's
+            # properties (append), direct writes to and removal of the NI_LineNames entry, further renames
+            for _step in range(rng.choice([0, 1, 1, 2, 3])):
+                c = rng.random()
+                try:
+                    if c < 0.4:
+                        names = ", ".join(rng.choice(["data", "clk", " p", "q "]) + str(j) for j in range(o.signal_count))
+                        src = DigitalWaveform(rng.choice([0, 1, 2]), o.signal_count, o.dtype,
+                                              extended_properties=rng.choice([{H.LINE_NAMES: names}, {H.LINE_NAMES: names, "z": 1}, {"z": 2}, {}]))
+                        if o.timing.sample_interval_mode == SampleIntervalMode.IRREGULAR:
+                            if src.sample_count:
+                                continue
+                            src.timing = Timing.create_with_irregular_interval([])
+                        o.append(src if rng.random() < 0.5 else [src])
+                    elif c < 0.55:
+                        o.extended_properties[H.LINE_NAMES] = rng.choice(["u, v, w", "", "only", " a ,b "])
+                    elif c < 0.7:
+                        o.extended_properties.pop(H.LINE_NAMES, None)
+                    elif c < 0.85:
+                        o.signals[rng.randrange(o.signal_count)].name = rng.choice(["r0", " r1 ", ""])
+                    else:
+                        _ = [s.name for s in o.signals]
+                except Exception:  # noqa: BLE001 - a refused step changes nothing (C07's business)
+                    pass
+                ctx.count("names-step", "merge" if c < 0.4 else "write" if c < 0.55 else "delete" if c < 0.7 else "rename" if c < 0.85 else "read")
 
         def wobs(x, k=k):
             extra = ()
